@@ -1248,7 +1248,7 @@ fn exec_entry<const N: usize>(cage: &mut Cage<Map<Key, Val, N>>, op: &Value, ctx
                     if m == "or_default" {
                         // the value made by Default during this call is the model's fresh object
                         if let Some(&d) = ledger::with(|l| l.defaults.first().copied()).as_ref() {
-                            ctx.tags.bind_v(FRESH, d);
+                            ctx.tags.bind_v(ctx.fresh_tag, d);
                         }
                     }
                     let vt = ctx.tags.vtag(o.serial);
